@@ -20,7 +20,7 @@ import re
 from vlib import core
 from vlib.core import sh2
 
-WRAP = "-Wl,--wrap=malloc,--wrap=free,--wrap=calloc,--wrap=realloc"
+WRAP = "-Wl,--wrap=malloc,--wrap=free,--wrap=calloc,--wrap=realloc,--wrap=posix_memalign,--wrap=aligned_alloc,--wrap=strdup"
 WRAP_FI = WRAP + " -rdynamic -ldl"     # harness/c14_fi.c attributes allocation calls to functions (dladdr)
 WRAP_MM = WRAP + ",--wrap=jpeg_open_backing_store"      # harness/c14.c can supply a backing store
 ENV = {"ASAN_OPTIONS": "detect_leaks=0:allocator_may_return_null=1:max_allocation_size_mb=4096", "UBSAN_OPTIONS": "print_stacktrace=1"}
@@ -556,7 +556,7 @@ def part_b(ctx, flavours):
     os.makedirs(scratch, exist_ok=True)
     res = {}
     for fl in flavours:
-        exe = ctx.cc("c14_fi", ["c14_fi.c"], fl, libs=("turbojpeg",), extra=WRAP_FI)
+        exe = ctx.cc("c14_fi", ["c14_fi.c", "c14_rdgif.c", "c14_rdtga.c"], fl, libs=("turbojpeg",), extra=WRAP_FI)
         d = os.path.join(scratch, fl)
         os.makedirs(d, exist_ok=True)
         res[fl] = (exe, d)
@@ -807,6 +807,23 @@ def limit_cases(ctx):
         big = 65536 if kind == "bmp" else 65535
         out.append(("limit load %s %d %d 1000" % (kind, big, big), True, "Maximum supported image dimension", "load64"))
         out.append(("limit load %s %d 65535 2147483647" % (kind, big + 1 if kind == "bmp" else big), True, "Maximum supported image dimension", "load64"))
+    # every input route x every header variant: tj3LoadImage8/12/16 with BMP 12/40/64-byte headers (108/124 are not read at all),
+    # PNM P2/P3/P5/P6; the cjpeg GIF and Targa readers through their start_input entry points
+    tooBig = "Maximum supported image dimension"
+    for w, h in [(7, 5), (rng.range(2, 40), rng.range(2, 40))]:
+        variants = [("bmp12", 8), ("bmp40", 8), ("bmp64", 8)] + [(p, pr) for p in ("p2", "p3", "p5", "p6") for pr in (8, 12, 16)]
+        for fmt, prec in variants:
+            for lim, rej in ((w * h - 1, True), (w * h, False), (w * h + 1, False), (1, True), (0, False)):
+                out.append(("limit loadv %s %d %d %d %d" % (fmt, prec, w, h, lim), rej, tooBig, "loadv"))
+        for fmt in ("bmp108", "bmp124"):
+            for lim in (w * h - 1, w * h):
+                out.append(("limit loadv %s 8 %d %d %d" % (fmt, w, h, lim), True, "", "loadv-unsup"))
+        for fmt in ("gif", "tga"):
+            for lim, rej in ((w * h - 1, True), (w * h, False), (1, True), (0, False)):
+                out.append(("limit rd %s %d %d %d" % (fmt, w, h, lim), rej, tooBig, "rd"))
+    out.append(("limit loadv bmp12 8 300 200 59999", True, tooBig, "loadv"))
+    out.append(("limit rd gif 65535 65535 4294836224", True, tooBig, "rd"))
+    out.append(("limit rd tga 65535 65535 4294836224", True, tooBig, "rd"))
     for idx in range(8):
         scans = idx + 2
         for api in ("decompress8", "toyuv", "transform"):
@@ -917,6 +934,10 @@ def exec_part_c(ctx, built, drv, cases=None):
                 q.append("pix %s %s %s" % (f[2], f[3], f[4]))
             elif kind in ("load", "load64"):
                 q.append("pix %s %s %s" % (f[3], f[4], f[5]))
+            elif kind in ("loadv", "loadv-unsup"):
+                q.append("pix %s %s %s" % (f[4], f[5], f[6]))
+            elif kind == "rd":
+                q.append("pix %s %s %s" % (f[3], f[4], f[5]))
             elif kind == "scan":
                 q.append("scan %d %s" % (int(f[2]) + 2, f[3]))
             else:
@@ -924,6 +945,8 @@ def exec_part_c(ctx, built, drv, cases=None):
         rc, out, err = sh2([drv], input=("\n".join(q) + "\n").encode(), timeout=300)
         ml = out.decode().split("\n")
         for (line, rej, msg, kind), mo in zip(cases, ml):
+            if kind == "loadv-unsup":
+                continue
             if kind != "mem":
                 if (mo.split()[-1] == "reject") != rej:
                     ctx.broken_tie("limits-model", "extracted limit comparison disagrees with the specification on %s: %s" % (line, mo))
@@ -938,7 +961,7 @@ def exec_part_c(ctx, built, drv, cases=None):
         for (line, rej, msg, kind), o in zip(cases, outs):
             if o is None:
                 continue
-            m = re.search(r"rc=(-?\d+)(?: biggest=(\d+))?(?: peak=(-?\d+))? \| ?(.*)", o)
+            m = re.search(r"rc=(-?\d+)(?: biggest=(\d+))?(?: peak=(-?\d+))?(?: got=\S+)? \| ?(.*)", o)
             if not m:
                 ctx.violation("limit case gave no result: " + o, {"limit": line, "flavour": fl}, signature="limit-noresult")
                 continue
